@@ -192,7 +192,7 @@ def run_semantic(res, sources, opts=None, count=30, extra_case=None, label="prog
         proved = bool(pnames) and all(o in pnames for o in obs_names)
         info["proved"] = proved
         rings = {x["mem"]: x for x in (mt.get("rings") or [])}
-        cells = (mt.get("cells") or []) + [x for x in (mt.get("loop_cells") or []) if not (rings.get(x["mem"]) or {}).get("proved")]
+        cells = (mt.get("cells") or []) + (mt.get("latch_cells") or []) + [x for x in (mt.get("loop_cells") or []) if not (rings.get(x["mem"]) or {}).get("proved")]
         have = {x["mem"] for x in cells}
         cells += [x for x in rings.values() if x["mem"] not in have]
         stats["proved_rings"] += sum(1 for x in rings.values() if x.get("proved"))
